@@ -3,7 +3,7 @@
    Text = list of code points; floats from literals = exact decimals (m, s) in
    normal form (faithful to Python for m < 10^15, s <= 290, see Model.v). *)
 From Coq Require Import String ZArith List Bool.
-From IBL.C09 Require Import Model Proofs.
+From IBL.C09 Require Import Model Proofs Grammar Tables Floats.
 Import ListNotations.
 Open Scope Z_scope.
 
@@ -160,6 +160,142 @@ Theorem C09_s2v_subset_refuted : exists d,
 Proof. eexists. split; [vm_compute; reflexivity|]. split; vm_compute; reflexivity. Qed.
 Print Assumptions C09_s2v_subset_refuted.
 
+(* ------------------------------------------------------------------ round 2 *)
+
+(* The property's grammar, and the round trip stated ON it.  A line is key=value
+   with a key free of '=' and line breaks and a value that is a string (fails the
+   numeric test; may be empty, may contain '='), a decimal scalar (digits with at
+   most one dot, not just "."), or a list of >= 2 non-empty digit strings.  The two
+   keys fed to int() (imProbeSN, imDatPrb_sn) hold a scalar or nothing.  For every
+   text whose lines (under any separators) are such lines: read_meta_data succeeds,
+   and writing + reading its result gives the same dictionary. *)
+Theorem C09_roundtrip_grammar : forall f ls,
+  splitlines (univ_nl f) = map line_text ls -> Forall gram_line ls -> serial_lines_ok ls ->
+  exists d, read_meta f = Some d /\ read_meta (write_meta d) = Some d.
+Proof. exact roundtrip_grammar. Qed.
+Print Assumptions C09_roundtrip_grammar.
+
+(* ... in particular for the file made of these lines, each terminated by "\n". *)
+Theorem C09_roundtrip_grammar_lf : forall ls,
+  Forall gram_line ls -> serial_lines_ok ls ->
+  exists d, read_meta (concat (map (fun kv => line_text kv ++ [10]) ls)) = Some d /\
+            read_meta (write_meta d) = Some d.
+Proof. intros ls Hg Hs. apply (roundtrip_grammar _ ls); auto. now apply lf_file_lines. Qed.
+Print Assumptions C09_roundtrip_grammar_lf.
+
+(* Max int: nidq/other default 32768; imec needs a probe generation; NP2 requires
+   imMaxInt; NP1/Ultra default 512. *)
+Theorem C09_max_int_table : forall d,
+  (is_imec d = false ->
+     max_int d = match lookup (lit "imMaxInt") d with Some x => py_int x | None => Some 32768 end) /\
+  (is_imec d = true -> version d = None -> max_int d = None) /\
+  (forall v, is_imec d = true -> version d = Some v ->
+     (is_np2 v = true ->
+        max_int d = match lookup (lit "imMaxInt") d with Some x => py_int x | None => None end) /\
+     (is_np2 v = false ->
+        max_int d = match lookup (lit "imMaxInt") d with Some x => py_int x | None => Some 512 end)).
+Proof. exact max_int_table. Qed.
+Print Assumptions C09_max_int_table.
+
+(* Sampling rate and full-scale conversion read the imec or the ni field. *)
+Theorem C09_fs_int2volt_table : forall d,
+  get_fs d = (if is_imec d then lookup (lit "imSampRate") d else lookup (lit "niSampRate") d) /\
+  (forall mi r, max_int d = Some mi -> mi <> 0 ->
+     (if is_imec d then lookup (lit "imAiRangeMax") d else lookup (lit "niAiRangeMax") d) = Some (VNum r) ->
+     int2volt d = Some (r, mi)).
+Proof. intros d. split; [apply fs_table|intros mi r; apply int2volt_table]. Qed.
+Print Assumptions C09_fs_int2volt_table.
+
+(* Sample count: the integer nearest to fileTimeSecs * fs (exact product), ties to even. *)
+Theorem C09_ns_spec : forall d m1 s1 m2 s2,
+  lookup (lit "fileTimeSecs") d = Some (VNum (m1, s1)) -> get_fs d = Some (VNum (m2, s2)) ->
+  exists r, get_ns d = Some r /\
+    let p := pow10 (s1 + s2) in let m := m1 * m2 in
+    2 * r * p - p <= 2 * m <= 2 * r * p + p /\
+    (2 * m = 2 * r * p - p \/ 2 * m = 2 * r * p + p -> r mod 2 = 0).
+Proof.
+  intros d m1 s1 m2 s2 H1 H2. exists (round_half_even (m1 * m2) (s1 + s2)).
+  split; [exact (ns_table d m1 s1 m2 s2 H1 H2)|apply round_half_even_spec].
+Qed.
+Print Assumptions C09_ns_spec.
+
+(* nidq volts per bit: MN channels range/maxint/niMNGain, MA channels /niMAGain,
+   XA channels gain 1, digital words 1; as many entries as snsMnMaXaDw announces. *)
+Theorem C09_s2v_nidq : forall d rng mi gmn gma c0 c1 c2 c3,
+  int2volt d = Some (rng, mi) ->
+  lookup (lit "imroTbl") d = None ->
+  lookup (lit "niMNGain") d = Some (VNum gmn) -> lookup (lit "niMAGain") d = Some (VNum gma) ->
+  lookup (lit "snsMnMaXaDw") d = Some (VList [c0; c1; c2; c3]) ->
+  0 <= dec_trunc c0 -> 0 <= dec_trunc c1 -> 0 <= dec_trunc c2 -> 0 <= dec_trunc c3 ->
+  let vec := zrepeat (CG gmn) (dec_trunc c0) ++ zrepeat (CG gma) (dec_trunc c1) ++
+             zrepeat (CG (1, O)) (dec_trunc c2) ++ zrepeat C1 (dec_trunc c3) in
+  s2v d = Some (rng, mi, S2Nidq vec) /\
+  Z.of_nat (length vec) = dec_trunc c0 + dec_trunc c1 + dec_trunc c2 + dec_trunc c3.
+Proof.
+  intros d rng mi gmn gma c0 c1 c2 c3 Hi Ht Hmn Hma Hx H0 H1 H2 H3 vec. split.
+  - now apply s2v_nidq.
+  - now apply nidq_vector_length.
+Qed.
+Print Assumptions C09_s2v_nidq.
+
+(* Reader.sample2volts is the vector of the stream type. *)
+Theorem C09_sample2volts_table : forall d r mi,
+  (forall ap lf, s2v d = Some (r, mi, S2Imec ap lf) ->
+     (get_type d = Some (Some SAp) -> sample2volts d = Some (r, mi, ap)) /\
+     (get_type d = Some (Some SLf) -> sample2volts d = Some (r, mi, lf))) /\
+  (forall g, s2v d = Some (r, mi, S2Nidq g) -> get_type d = Some (Some SNidq) ->
+     sample2volts d = Some (r, mi, g)).
+Proof. exact sample2volts_table. Qed.
+Print Assumptions C09_sample2volts_table.
+
+(* Serial number (part of the parsed dictionary): first truthy of imProbeSN,
+   imDatPrb_sn, through int(); None when neither is. *)
+Theorem C09_serial_table : forall d,
+  (forall v, lookup (lit "imProbeSN") d = Some v -> truthy v = true ->
+     serial d = option_map Some (py_int v)) /\
+  ((lookup (lit "imProbeSN") d = None \/ exists v, lookup (lit "imProbeSN") d = Some v /\ truthy v = false) ->
+     (forall w, lookup (lit "imDatPrb_sn") d = Some w -> truthy w = true ->
+        serial d = option_map Some (py_int w)) /\
+     ((lookup (lit "imDatPrb_sn") d = None \/
+       exists w, lookup (lit "imDatPrb_sn") d = Some w /\ truthy w = false) -> serial d = Some None)).
+Proof. exact serial_table. Qed.
+Print Assumptions C09_serial_table.
+
+(* Analog sync traces: none on imec streams; on nidq the XA channels, placed
+   after the MN and MA channels. *)
+Theorem C09_analog_sync_table : forall d,
+  (forall st, get_type d = Some (Some st) -> st <> SNidq -> analog_sync d = Some (0, 0)) /\
+  (forall m0 m1 m2 c3, get_type d = Some (Some SNidq) ->
+     lookup (lit "snsMnMaXaDw") d = Some (VList [(m0, O); (m1, O); (m2, O); c3]) ->
+     analog_sync d = Some (m0 + m1, Z.max 0 m2)).
+Proof. exact analog_sync_table. Qed.
+Print Assumptions C09_analog_sync_table.
+
+(* Beyond 15 digits.  Over an ABSTRACT float type, assuming only
+     (repr_roundtrip) rd (repr x) = x         float(format_float_positional(x)) == x
+     (int_exact)      is_int x -> rd (int x) = x   float(str(int(x))) == x
+   (and that repr prints a normal-form decimal), every written value re-reads as
+   itself, and writing then reading ANY dictionary of strings, floats and
+   integer-valued float lists is the identity — 17-digit doubles included. *)
+Theorem C09_float_value_roundtrip :
+  forall (F : Type) (rd : dec -> F) (repr : F -> dec) (is_int : F -> bool) (to_int : F -> Z),
+  (forall x, normd (repr x)) -> (forall x, rd (repr x) = x) ->
+  (forall x, is_int x = true -> 0 <= to_int x /\ rd (to_int x, O) = x) ->
+  forall v, fcanon F is_int v ->
+  option_map (fv_of F rd) (parse_value (fshow F repr is_int to_int v)) = Some v.
+Proof. exact fvalue_roundtrip. Qed.
+Print Assumptions C09_float_value_roundtrip.
+
+Theorem C09_float_dict_roundtrip :
+  forall (F : Type) (rd : dec -> F) (repr : F -> dec) (is_int : F -> bool) (to_int : F -> Z),
+  (forall x, normd (repr x)) -> (forall x, rd (repr x) = x) ->
+  (forall x, is_int x = true -> 0 <= to_int x /\ rd (to_int x, O) = x) ->
+  forall d : fdict F,
+  NoDup (map fst d) -> Forall (fun e => key_ok (fst e) /\ fcanon F is_int (snd e)) d ->
+  fread_base F rd (fwrite F repr is_int to_int d) = Some d.
+Proof. exact fdict_roundtrip. Qed.
+Print Assumptions C09_float_dict_roundtrip.
+
 (* ---- the hypotheses are satisfiable on non-trivial inputs *)
 Definition ex_file : str :=
   lit ("a=1.50" ++ nl ++ "~b=x=y" ++ nl ++ "snsApLfSy=384,0,1" ++ nl ++ "a=.25" ++ nl ++
@@ -173,3 +309,28 @@ Example ex_read : exists d, read_meta ex_file = Some d /\ length d = 9%nat /\
   get_type d = Some (Some SAp) /\ sync_indices d = Some (384, 1) /\
   read_meta (write_meta d) = Some d.
 Proof. eexists. split; [vm_compute; reflexivity|]. vm_compute. repeat split. Qed.
+
+(* the grammar hypotheses hold for a file with every kind of value *)
+Example ex_grammar :
+  let ls := [(lit "a", lit "1.50"); (lit "~b", lit "x=y"); (lit "snsApLfSy", lit "384,0,1");
+             (lit "e", lit ".5"); (lit "n", lit "5."); (lit "empty", []); (lit "imDatPrb_sn", lit "0641")] in
+  Forall gram_line ls /\ serial_lines_ok ls.
+Proof.
+  cbv zeta. split.
+  - assert (K : forall k v, forallb (fun c => negb (c =? 61)) k = true -> plain k = true ->
+                gram_value v -> gram_line (k, v)) by (intros; repeat split; assumption).
+    repeat (apply Forall_cons; [apply K; [reflexivity|reflexivity|]|]); [| | | | | | |apply Forall_nil].
+    + right. left. right. exists (lit "1"), (lit "50"). repeat split; try reflexivity. left; discriminate.
+    + left. split; reflexivity.
+    + right. right. exists [lit "384"; lit "0"; lit "1"]. split; [cbn; auto|]. split; [|reflexivity].
+      repeat (apply Forall_cons; [split; [reflexivity|discriminate]|]). apply Forall_nil.
+    + right. left. right. exists [], (lit "5"). repeat split; try reflexivity. right; discriminate.
+    + right. left. right. exists (lit "5"), []. repeat split; try reflexivity. left; discriminate.
+    + left. split; reflexivity.
+    + right. left. left. split; [reflexivity|discriminate].
+  - intros k v Hin Hk. cbn [In] in Hin. repeat destruct Hin as [Hin|Hin]; try contradiction.
+    all: injection Hin as <- <-.
+    all: try (exfalso; unfold serial_keys in Hk; cbn [In] in Hk;
+              repeat (destruct Hk as [Hk|Hk]; [discriminate Hk|]); exact Hk).
+    left. left. split; [reflexivity|discriminate].
+Qed.
